@@ -175,6 +175,7 @@ Definition SGal3 : GroupOps F := {|
   g_smallAdj := sg_smallAdj; g_generator := sg_generator; g_vee := sg_vee;
   g_bracket := fun a b => mvmul (sg_smallAdj a) b;
   g_innerweights := inner_weights_generic 10 5 sg_generator;
-  g_trandom := fun u => u
+  g_trandom := fun u => u;
+  g_grandom := fun u => firstn 3 u ++ rand_quat F (vnth u 3) (vnth u 4) (vnth u 5) ++ vslice u 6 3 ++ [vnth u 9]
 |}.
 End SGal3.
